@@ -581,6 +581,17 @@ func gen(rng *rand.Rand, tier string) []string {
 			if cont[i] {
 				out = append(out, "settle")
 			}
+		case r < 73 && useCont && nca < maxCA && na < maxA:
+			// removal of an unresolved promise under a parked awaiter, then its late resolution
+			p := rng.Intn(np)
+			kk := k()
+			out = append(out, fmt.Sprintf("csetp %d", p), "cawait "+kk, "settle", "csetp nil", "quiesce",
+				fmt.Sprintf("set %d %s", p, e()), "quiesce")
+			cont = append(cont, true)
+			akind = append(akind, kk)
+			na++
+			nca++
+			curNil = true
 		case r < 80 && useCont:
 			if rng.Intn(4) == 0 {
 				out = append(out, "settle", "csetp nil", "settle")
@@ -639,6 +650,11 @@ func init() {
 			{"newp", "await 0 ctx", "await 0 errch", "await 0 errch", "await 0 cancelch", "await 0 cancelch", "await 0 ctx", "settle", "quiesce", "cancel 0", "fire 1 close", "fire 2 send nil", "fire 3 close", "fire 4 send nil", "quiesce", "set 0 canceled", "set 0 nil", "quiesce"},
 			// simultaneous setters; setter racing awaiters
 			{"newp", "bset 0 4", "settle", "await 0 ctx", "quiesce", "newp", "brace 1 3", "quiesce"},
+			// the container is cleared while awaiters of all three kinds are parked on an unresolved promise;
+			// the removed promise is resolved later: nobody may return its result; the next content reaches them
+			{"newp", "csetp 0", "cawait ctx", "cawait errch", "cawait cancelch", "settle", "quiesce", "csetp nil", "quiesce", "set 0 nil", "quiesce", "cres e1", "quiesce"},
+			{"newp", "newp", "csetp 0", "cawait ctx", "settle", "csetp nil", "quiesce", "set 0 canceled", "settle", "csetp 1", "quiesce", "set 1 nil", "quiesce"},
+			{"newp", "csetp 0", "cawait cancelch", "cawait errch", "settle", "csetp nil", "quiesce", "set 0 e1", "quiesce", "fire 0 close", "fire 1 send deadline", "quiesce"},
 			// SetPromise with the same promise does not wake anybody; replaced by a resolved one
 			{"newp", "csetp 0", "cawait ctx", "settle", "csetp 0", "quiesce", "cres e1", "quiesce"},
 		},
